@@ -11,7 +11,7 @@ Set Warnings "-notation-overridden,-ambiguous-paths".
 From mathcomp Require Import all_ssreflect all_algebra all_real_closed.
 From mathcomp Require Import ssrZ.
 Set Warnings "notation-overridden,ambiguous-paths".
-From LP Require Import UPolySpec RefAlgSpec RefAlgLoops RefAlgOps RefAlgDet RefAlgAnn RefAlgArith RefAlgSqfree RefAlgFinal RefAlgRoots.
+From LP Require Import UPolySpec RefAlgSpec RefAlgLoops RefAlgOps RefAlgDet RefAlgAnn RefAlgArith RefAlgSqfree RefAlgFinal RefAlgRoots RefAlgRat.
 Import GRing.Theory Num.Theory.
 Local Open Scope ring_scope.
 
@@ -292,3 +292,23 @@ Theorem Base_rn_roots : forall (R : rcfType) (fuel : nat) (p : seq Z) (rs : seq 
   Poly p != 0 :> {poly Z} -> rn_roots fuel p = Some rs -> dens rs (rootsR (@pr R p)).
 Proof. exact: rn_roots_correct. Qed.
 Print Assumptions Base_rn_roots.
+
+(* sign, rationality (x is rational iff lc(p) * x is an integer: rational root theorem) and the rational value *)
+Theorem Base_rn_sgn : forall (R : rcfType) (x : rnum) (a : R), rn_denotes x a -> zr (rn_sgn x) = Num.sg a.
+Proof. exact: rn_sgn_spec. Qed.
+Print Assumptions Base_rn_sgn.
+
+Theorem Base_rational_root_den : forall (R : rcfType) (l : seq Z) (n d : Z), Z.lt 0 d -> Z.gcd n d = Zpos xH ->
+  (@pr R l).[zr n / zr d] = 0 -> Z.divide d (last Z0 l).
+Proof. exact: rational_root_den. Qed.
+Print Assumptions Base_rational_root_den.
+
+Theorem Base_rn_is_rational : forall (R : rcfType) (fuel : nat) (x : rnum) (v : R) (b : bool),
+  rn_denotes x v -> rn_is_rational fuel x = Some b -> b = true <-> exists q : Z * Z, qpos q /\ v = qr q.
+Proof. exact: rn_is_rational_spec. Qed.
+Print Assumptions Base_rn_is_rational.
+
+Theorem Base_rn_to_rational : forall (R : rcfType) (fuel : nat) (x : rnum) (v : R) (q : Z * Z),
+  rn_denotes x v -> rn_to_rational fuel x = Some q -> qpos q /\ v = qr q.
+Proof. exact: rn_to_rational_spec. Qed.
+Print Assumptions Base_rn_to_rational.
